@@ -177,6 +177,10 @@ let dispatch name =
   | "basis_integrate" -> let tol = rq () in let b = rbasis () in let t0 = rq () in let t1 = rq () in
     pqlist (Exec.q_basis_integrate tol b t0 t1)
   | "obj_center" -> let tol = rq () in let o = robj () in pqlist (Exec.q_obj_center tol o)
+  | "orient_compute" -> let atol = rq () in let a = robj () in let b = robj () in
+    (match Exec.q_orient_compute atol { coq_Qnum = Z.zero; coq_Qden = Z.one } { coq_Qnum = Z.one; coq_Qden = Z.of_string "10000000000" } a b with
+     | Some o -> out "Some"; plist pnat o.Orient.o_perm; plist pbool o.Orient.o_flip
+     | None -> out "None")
   | _ -> out ("UNKNOWN " ^ name)
 
 let () =
